@@ -428,7 +428,7 @@ impl<'a> Lexer<'a> {
             .unwrap_or_else(|| LexResult {
                 token: self.make_token_from(
                     start,
-                    end,
+                    end - start,
                     TokenType::Error(ErrorMessage(
                         "Identifier may not contain non-alphabetic characters",
                     )),
